@@ -12,7 +12,7 @@ def run(ctx):
         "keep_query/keep_fragment selecting between identity and ''; delegations to helpers are followed with the "
         "parameters bound to the caller's terms; (F2) the authority modifiers re-assemble the authority from raw_user / "
         "raw_password / host_subcomponent / explicit_port (never raw_host, port or decoded accessors) and with_user(None) "
-        "drops the password; (K1/K2) the replaced component is quoted exactly once. (H2) host_subcomponent, from which every authority modifier rebuilds the authority, adds brackets exactly under `':' in host`. (SH4-BRACKET) no constructor or modifier pre-fills raw_host with the encoder's bracketed form, so the re-assembled authority keeps exactly one pair of brackets. Not decided: that make_netloc's "
+        "drops the password; (K1/K2) the replaced component is quoted exactly once. (H2) host_subcomponent, from which every authority modifier rebuilds the authority, adds brackets exactly under `':' in host`. (IM13, keys parent/_origin) the memoised results of parent and origin() are stored only by those accessors themselves, never planted into a URL another function did not create. (SH4-BRACKET) no constructor or modifier pre-fills raw_host with the encoder's bracketed form, so the re-assembled authority keeps exactly one pair of brackets. Not decided: that make_netloc's "
         "output re-parses to its inputs for all values.")
     K = make_kinds(ctx.model)
     flow.f1(ctx)
@@ -24,6 +24,9 @@ def run(ctx):
     _host.h2(ctx)           # the accessor the authority is re-assembled from brackets exactly the hosts that contain ':'
     from ..rules.pickle import sh4_bracket
     sh4_bracket(ctx)        # ... and the raw_host it reads is never pre-filled with the bracketed form (else the rebuilt authority has '[[v6]]')
+    from ..rules import immut as _immut
+    # `parent` / `origin()` are judged by their own bodies (F1): nobody else plants their result in a URL it did not create
+    _immut.im13(ctx, only_keys=("parent", "_origin"))
     flow.f_self(ctx, K)     # `return self` short-cuts compare the canonicalised argument, never the text as supplied
     k1(ctx, K)
     k2_k3(ctx, K)
